@@ -25,7 +25,7 @@ RULE = ("(A) value mapping: input dtype {u8,i8,i16,u16,i32,u32,f32,f64} x "
         "header scaling {none,(2,0),(0.5,1),(1,-3),(0.25,0.5)} x "
         "ignore_scaling x {no min/max, 3 dyadic min/max pairs per target, a "
         "pair as wide as the output range with a non-zero minimum, "
-        "input_max alone} x "
+        "input_max alone, a range ending at 0} x "
         "target dtype5 x {full, mmap} on a 12-voxel volume holding type "
         "limits, ties and out-of-range values; (B) tiling: shapes {1,2,3,5}^3 "
         "+ (7,1,2),(9,4,3) x chunk sizes {1^3,2^3,4^3,8^3,(2,4,1),(3,2,2)} x "
@@ -35,7 +35,7 @@ RULE = ("(A) value mapping: input dtype {u8,i8,i16,u16,i32,u32,f32,f64} x "
         "shapes; label volumes with the same label sets in every channel as "
         "cseg; conversions into a destination already holding another "
         "volume (same layout, either gzip setting before). "
-        "Thorough also reads .nii.gz inputs. Quick: A without mmap duplicates on 3 input types per target, B "
+        "A subset of (A) also runs through the console script main(argv); one file is converted three times in one process with other options (24 orders). Thorough also reads .nii.gz inputs. Quick: A without mmap duplicates on 3 input types per target, B "
         "with 3 chunk sizes on 14 shapes, C in full. Non-trivial: >= 2 "
         "chunks, or a dtype change, or a scaling applied.")
 ASSUMPTIONS = [
@@ -63,10 +63,11 @@ def minmax_choices(out):
     the output range (rescaling slope 1) with a non-zero minimum."""
     if out == "float32":
         return [None, (0.0, 256.0), (-0.5, 0.0), (100.0, 164.0),
-                (1.0, 2.0), (None, 256.0)]
+                (1.0, 2.0), (None, 256.0), (-64.0, 0.0)]
     hi = ex.INT_RANGE[out][1]
     out_list = [None, (0.0, float(hi)), (0.0, float(2 * hi)),
                 (3.0, 3.0 + hi / 2.0)]
+    out_list.append((-64.0, 0.0))
     if out != "uint64":
         out_list.append((100.0, 100.0 + hi))
     out_list.append((None, float(2 * hi)))
@@ -169,24 +170,60 @@ def expected(case, exact):
 def _eval(col, case):
     d = sandbox.fresh_dir("c01")
     try:
-        _eval_in(col, case, d)
+        if case.get("sequence"):
+            _eval_sequence(col, case, d)
+        else:
+            _eval_in(col, case, d)
     finally:
         sandbox.drop_captured_exit_handlers()
         sandbox.rm(d)
 
 
-def _eval_in(col, case, d):
+SEQ_OPTS = {"plain": {}, "ignore": {"ignore_scaling": True},
+            "minmax": {"minmax": [0.0, 510.0]},
+            "mmap": {"mmap": True}}
+
+
+def _eval_sequence(col, case, d):
+    """ONE volume file converted several times in one process, each time
+    with other options (into a fresh destination): every result is the one
+    of its own options"""
+    import nibabel
+    base = base_case(kind="value", in_dtype="int16", out_dtype="uint16",
+                     scaling=[2.0, 1.0], fill="alphabet")
+    arr, _, _ = build_input(base)
+    path = os.path.join(d, "shared.nii")
+    img = nibabel.Nifti1Image(arr, np.diag([1.0, 1.0, 1.0, 1.0]),
+                              dtype=arr.dtype)
+    img.header.set_data_dtype(arr.dtype)
+    img.header.set_slope_inter(2.0, 1.0)
+    nibabel.save(img, path)
+    for k, name in enumerate(case["sequence"]):
+        sub = os.path.join(d, "step%d" % k)
+        os.makedirs(sub)
+        c = dict(base, **SEQ_OPTS[name])
+        c["step"] = k
+        c["sequence"] = case["sequence"]
+        before = col.r["violation_count"]
+        _eval_in(col, c, sub, src_path=path)
+        if col.r["violation_count"] != before:
+            return
+
+
+def _eval_in(col, case, d, src_path=None):
     import nibabel
 
     from neuroglancer_scripts import volume_reader
     arr, exact, nch = build_input(case)
-    path = os.path.join(d, "v.nii.gz" if case.get("gz") else "v.nii")
-    img = nibabel.Nifti1Image(arr, np.diag([1.0, 1.0, 1.0, 1.0]),
-                              dtype=arr.dtype)
-    img.header.set_data_dtype(arr.dtype)
-    if case["scaling"] is not None:
-        img.header.set_slope_inter(*case["scaling"])
-    nibabel.save(img, path)
+    path = src_path or os.path.join(
+        d, "v.nii.gz" if case.get("gz") else "v.nii")
+    if src_path is None:
+        img = nibabel.Nifti1Image(arr, np.diag([1.0, 1.0, 1.0, 1.0]),
+                                  dtype=arr.dtype)
+        img.header.set_data_dtype(arr.dtype)
+        if case["scaling"] is not None:
+            img.header.set_slope_inter(*case["scaling"])
+        nibabel.save(img, path)
     dest = os.path.join(d, "ds")
     os.makedirs(dest)
     scale = {"key": "full", "size": list(case["shape"]),
@@ -242,13 +279,36 @@ def _eval_in(col, case, d):
             return
         sandbox.install_atexit_capture()
     try:
-        with sandbox.quiet(), np.errstate(all="ignore"):
-            status = volume_reader.volume_file_to_precomputed(
-                path, dest, ignore_scaling=case["ignore_scaling"],
-                input_min=None if mm is None else mm[0],
-                input_max=None if mm is None else mm[1],
-                load_full_volume=not case["mmap"], options=opts)
-            errs = sandbox.run_captured_exit_handlers()
+        if case.get("via_cli"):
+            # the console script: argument parsing and forwarding included
+            argv = [path, dest]
+            if case["ignore_scaling"]:
+                argv.append("--ignore-scaling")
+            if mm is not None:
+                if mm[0] is not None:
+                    argv += ["--input-min", repr(mm[0])]
+                argv += ["--input-max", repr(mm[1])]
+            if case["mmap"]:
+                argv.append("--mmap")
+            if st["kind"] == "file":
+                argv += (["--flat"] if st["flat"] else []) + (
+                    [] if st["gzip"] else ["--no-gzip"])
+            else:
+                argv += ["--sharding", opts["sharding"]] + (
+                    [] if opts["gzip"] else ["--no-gzip"])
+            with np.errstate(all="ignore"):
+                r = sandbox.run_cli("volume_to_precomputed", argv)
+            if r.exc is not None:
+                raise r.exc
+            status, errs = r.status, list(r.exit_errors)
+        else:
+            with sandbox.quiet(), np.errstate(all="ignore"):
+                status = volume_reader.volume_file_to_precomputed(
+                    path, dest, ignore_scaling=case["ignore_scaling"],
+                    input_min=None if mm is None else mm[0],
+                    input_max=None if mm is None else mm[1],
+                    load_full_volume=not case["mmap"], options=opts)
+                errs = sandbox.run_captured_exit_handlers()
         if errs:
             raise errs[0]
         if status:
@@ -348,10 +408,24 @@ def cases(tier):
                                 scaling=list(sc) if sc else None,
                                 ignore_scaling=ign,
                                 minmax=list(mm) if mm else None, mmap=mmap))
+    # the same value-mapping cases through the console script
+    for c in list(out):
+        if c["kind"] == "value" and c["in_dtype"] in ("int16", "uint8") \
+                and c["out_dtype"] in ("uint8", "float32") \
+                and c["scaling"] in (None, [0.5, 1.0]):
+            c2 = dict(c)
+            c2["via_cli"] = True
+            out.append(c2)
+    # one file converted three times in one process with other options
+    for seq in itertools.permutations(("plain", "ignore", "minmax", "mmap"),
+                                      3):
+        out.append({"kind": "value", "sequence": list(seq)})
     # compressed input files (.nii.gz), thorough only
     if tier == "thorough":
         for c in list(out):
-            if c["kind"] == "value" and c["scaling"] in (None, [0.5, 1.0]) \
+            if c["kind"] == "value" and "scaling" in c \
+                    and not c.get("via_cli") \
+                    and c["scaling"] in (None, [0.5, 1.0]) \
                     and c["minmax"] is None:
                 c2 = dict(c)
                 c2["gz"] = True
@@ -465,7 +539,7 @@ def units(tier):
 def space(tier):
     cs = cases(tier)
     return {"cases": len(cs),
-            "by_kind": {k: sum(1 for c in cs if c["kind"] == k)
+            "by_kind": {k: sum(1 for c in cs if c.get("kind") == k)
                         for k in ("value", "tiling", "storage")}}
 
 
